@@ -152,6 +152,19 @@ z3.RecAddDefinition(NUML, [_s, _p], 1 + lead_ones(SB(_s, _p)))
 z3.RecAddDefinition(NUMV, [_s, _p], number_value(SB(_s, _p), [SB(_s, _p + 1 + i) for i in range(8)]))
 
 
+def mask_after(r):
+    """the bit mask after r (mod 8) bits of the current byte have been consumed: 0 when a new byte is due"""
+    acc = bv(0)
+    for k in range(7, 0, -1):
+        acc = z3.If(r == k, bv(0x80 >> k), acc)
+    return acc
+
+
+BITF = z3.RecFunction("bitvector_bit", Stream, I, I, B)     # bit i of the 7z BitVector stored at offset p (MSB first)
+_bi = z3.Int("i!bit")
+z3.RecAddDefinition(BITF, [_s, _p, _bi], z3.Or([z3.And(_bi % 8 == k, z3.Extract(7 - k, 7 - k, SB(_s, _p + _bi / 8)) == 1) for k in range(8)]))
+
+
 def number_python(data, p=0):
     """The same spec on python bytes (used by the known-answer lemmas and the replayer)."""
     b0 = data[p]
@@ -259,21 +272,9 @@ def byte_contracts():
         raises=[Raises(BAD, when=lambda c: pos0(c) + NUML(S(c), pos0(c)) > SLEN(S(c)), label="short stream")],
         note="7z NUMBER: leading 1-bits of the first byte = number of extra little-endian bytes; "
              "the 8-step loop is `for i in range(8)` (exact unrolling, no unwinding assumption needed)"))
-    # ---- _read_boolean_vector: BOUNDED in `count` (the result list has concrete length in this engine)
-    BV_COUNTS = list(range(0, 18))
-
-    def bv_count(c):
-        k = c.args["count"].const() if isinstance(c.args["count"], VInt) else None
-        if k is None:
-            k = c.ex.concretize(c.entry, c.args["count"]) if hasattr(c.ex, "concretize") else None
-        if k is None or k not in BV_COUNTS:
-            import os as _os
-            if _os.environ.get("C10_DEBUG"):
-                print("DEBUG count term:", c.args["count"].t.sexpr()[:300], "k=", k, "ghost", {g: v for g, v in c.entry.ghost.items() if str(g).startswith("bounded")})
-                for p_ in c.entry.pc:
-                    print("   pc:", p_.sexpr()[:260].replace("\n", " "))
-            raise ops.Unsupported("_read_boolean_vector: count outside the BOUNDED scope")
-        return k
+    # ---- _read_boolean_vector: any count (loop invariant over the bit index; the result list by PY-LIST-ORDER)
+    def bv_n(c):
+        return ops.int_term(c.args["count"])
 
     def bv_cd(c):
         v = c.args["check_defined"]
@@ -282,45 +283,93 @@ def byte_contracts():
             raise ops.Unsupported("_read_boolean_vector: check_defined not a literal")
         return k
 
-    def bitvector_spec(s, p, n):
-        """format: bit i of the vector is bit (7 - i mod 8) of byte p + i div 8"""
-        return [z3.Extract(7 - (i % 8), 7 - (i % 8), SB(s, z3.simplify(p + i // 8))) == 1 for i in range(n)]
-
     def bv_all(c):
         return z3.And(z3.BoolVal(bv_cd(c)), SB(S(c), pos0(c)) != bv(0))
 
     def bv_need(c):
         """bytes consumed"""
-        n = bv_count(c)
+        n = bv_n(c)
         if bv_cd(c):
-            return z3.If(bv_all(c), 1, 1 + (n + 7) // 8)
-        return z3.IntVal((n + 7) // 8)
+            return z3.If(bv_all(c), 1, 1 + (n + 7) / 8)
+        return (n + 7) / 8
 
     def bv_returns(c):
-        n = bv_count(c)
-        s, p = S(c), pos0(c)
+        n, s, p = bv_n(c), S(c), pos0(c)
+        k = None
+        if c.at_call_site:
+            k = c.args["count"].const() if isinstance(c.args["count"], VInt) else None
+            if k is None and hasattr(c.ex, "concretize") and getattr(c.ex.contract, "bounded", ""):
+                k = c.ex.concretize(c.entry, c.args["count"])
         if not bv_cd(c):
-            return c.ex.new_list(c.st, [VBool(t) for t in bitvector_spec(s, p, n)])
-        bits = bitvector_spec(s, p + 1, n)
-        return c.ex.new_list(c.st, [VBool(z3.Or(bv_all(c), t)) for t in bits])
+            elem = lambda j: VBool(BITF(s, p, j))
+        else:
+            alld = bv_all(c)
+            elem = lambda j: VBool(z3.Or(alld, BITF(s, p + 1, j)))
+        if k is not None and 0 <= k <= 64:
+            return c.ex.new_list(c.st, [VBool(z3.simplify(elem(z3.IntVal(j)).t)) for j in range(k)])     # concrete count: a concrete list
+        return VSeq(n, elem, "bool")
 
     def bv_short(c):
         """raises only when the bytes the format needs are missing"""
-        n = bv_count(c)
+        n = bv_n(c)
         L, p = SLEN(S(c)), pos0(c)
         if bv_cd(c):
-            return z3.Or(p + 1 > L, z3.And(z3.Not(bv_all(c)), p + 1 + (n + 7) // 8 > L))
-        return z3.And(z3.BoolVal(n > 0), p + (n + 7) // 8 > L)
+            return z3.Or(p + 1 > L, z3.And(z3.Not(bv_all(c)), n > 0, p + 1 + (n + 7) / 8 > L))
+        return z3.And(n > 0, p + (n + 7) / 8 > L)
+
+    def bv_names(ex):
+        """roles of the loop's locals, read from the AST: the shifted mask, the current byte, the result list"""
+        fnode = ex.cur_fn_stack[-1]
+        loop = sorted([n for n in ast.walk(fnode) if isinstance(n, (ast.For, ast.While))], key=lambda n: (n.lineno, n.col_offset))[0]
+        masks = {n.target.id for n in ast.walk(loop) if isinstance(n, ast.AugAssign) and isinstance(n.op, ast.RShift) and isinstance(n.target, ast.Name)}
+        bytes_ = {n.targets[0].id for n in ast.walk(loop) if isinstance(n, ast.Assign) and len(n.targets) == 1 and isinstance(n.targets[0], ast.Name)
+                  and isinstance(n.value, ast.Call) and isinstance(n.value.func, ast.Attribute) and n.value.func.attr == "_read_uint8"}
+        if len(masks) != 1 or len(bytes_) != 1:
+            raise ops.Unsupported(f"_read_boolean_vector: loop roles not recognised (mask {sorted(masks)}, byte {sorted(bytes_)})")
+        return masks.pop(), bytes_.pop(), worklist_name(fnode, 0)
+
+    def bv_havoc(ex, st):
+        m, b, _r = bv_names(ex)
+        st.bind(m, VInt(z3.BitVec(fresh_name(m), 8)))      # both range over bytes (invariant below)
+        st.bind(b, VInt(z3.BitVec(fresh_name(b), 8)))
+        common.havoc_pos(ex, st, st.obj(st.lookup("self").ref).data["_stream"])
+
+    def bv_inv(lc):
+        m, b, res = bv_names(lc.ex)
+        i = lc.i
+        stream = lc.entry.obj(lc.entry.lookup("self").ref).data["_stream"]
+        s = stream.t
+        p0 = common.bytesio_pos(lc.entry, stream)
+        pos = common.bytesio_pos(lc.st, stream)
+        r, q = i % 8, i / 8
+        conj = [pos == p0 + (i + 7) / 8,
+                ops.eq_term(lc[m], VInt(mask_after(r))),
+                z3.Implies(r != 0, ops.eq_term(lc[b], VInt(SB(s, p0 + q)))),
+                z3.Or(i == 0, pos <= SLEN(s))]
+        if lc.extra.get("phase") == "preserve":
+            ref = lc.entry.lookup(res).ref
+            new = [v for (rf, v) in new_events(lc, "appends") if rf == ref]
+            ok = z3.BoolVal(False)
+            if len(new) == 1 and isinstance(new[0], VBool):
+                ok = new[0].t == BITF(s, p0, i - 1)
+            conj.append(ok)
+        if lc.extra.get("phase") == "exit":
+            # PY-LIST-ORDER: the result is the sequence of appended bits
+            lc.st.bind(res, VSeq(i, lambda j: VBool(BITF(s, p0, j)), "bool"))
+        return z3.And(conj)
 
     out.append(FnContract(
         target=f"{RD}._read_boolean_vector",
-        params=[("self", p_reader()), ("count", p_alts(*[p_const(k) for k in BV_COUNTS])), ("check_defined", p_alts(p_const(False), p_const(True)))],
-        requires=req_stream, frame=frame_stream, returns=bv_returns,
+        params=[("self", p_reader()), ("count", p_int(0)), ("check_defined", p_alts(p_const(False), p_const(True)))],
+        requires=lambda c: z3.And(req_stream(c), bv_n(c) >= 0), frame=frame_stream, returns=bv_returns,
         ensures=[("consumes-exactly-the-vector", lambda c: pos1(c) == pos0(c) + bv_need(c)),
-                 ("returns-only-if-enough-bytes", lambda c: z3.Not(bv_short(c)))],
+                 ("returns-only-if-enough-bytes", lambda c: z3.Not(bv_short(c))),
+                 ("bit-loop-runs-to-completion-unless-all-defined", internal(lambda c: z3.Or(
+                     bv_all(c), z3.BoolVal(bool(c.st.ghost.get(("done", "bit-i-is-bit-7-minus-i-mod-8-of-byte-i-div-8")))))))],
         raises=[Raises(BAD, when=bv_short, label="short stream")],
-        bounded=f"count in 0..{BV_COUNTS[-1]}, check_defined in (False, True), all stream bytes symbolic",
-        note="7z BitVector (optionally preceded by the allAreDefined byte): MSB-first bits"))
+        loops={0: LoopSpec(inv=done("bit-i-is-bit-7-minus-i-mod-8-of-byte-i-div-8", bv_inv), label="bit-i-is-bit-7-minus-i-mod-8-of-byte-i-div-8",
+                           havoc=(bv_havoc,))},
+        note="7z BitVector (optionally preceded by the allAreDefined byte): MSB-first bits; any count"))
     out.append(FnContract(
         target=f"{RD}._seek_back_one", params=[("self", p_reader())],
         requires=lambda c: z3.And(req_stream(c), pos0(c) >= 1), frame=frame_stream,
@@ -442,6 +491,16 @@ class C10Executor(Executor):
                 self.add_vc(kind, label, pc, ch, note, loc)
             return
         super().add_vc(kind, label, pc, goal, note, loc)
+
+    def binop(self, st, op, a, b, node, inplace=False):
+        """`[x] * n` with a symbolic n: the immutable sequence of max(n, 0) copies of x"""
+        if op == "Mult" and isinstance(a, VRef) and isinstance(b, VInt) and b.const() is None:
+            items = self.concrete_items(st, a)
+            if items is not None and len(items) == 1 and isinstance(items[0], (VBool, VInt, VStr)):
+                n = ops.int_term(b)
+                x = items[0]
+                return [(st, VSeq(z3.If(n < 0, z3.IntVal(0), n), lambda i, x=x: x, x.kind))]
+        return super().binop(st, op, a, b, node, inplace)
 
     # -- `k in self._folder_to_files`, `self._folder_to_files[k]`
     def contains(self, st, container, item, node):
